@@ -53,10 +53,16 @@ func c12Lattice(c *Ctx, idx int) {
 	doc := ref.NewObj()
 	doc.Set("x", arr)
 	doc.Set("s", str.String())
+	doc.Set("t", "abcdefg"[:n]) // single-byte characters only
 	goDoc := ref.ToGo(doc, ref.JSONNumber)
 	feats := map[string]string{"n": fmt.Sprint(n)}
 	m1, _ := c.CheckModel("C12", "x"+sl, doc, goDoc, CheckOpts{Features: feats})
 	m2, _ := c.CheckModel("C12", "s"+sl, doc, goDoc, CheckOpts{Features: feats})
+	if m3, _ := c.CheckModel("C12", "t"+sl, doc, goDoc, CheckOpts{Features: feats}); !m3.Unspec {
+		c.Nontrivial("t", sl, fmt.Sprint(n))
+	}
+	c.CheckModel("C12", "t | @"+sl, doc, goDoc, CheckOpts{Features: feats})
+	c.CheckModel("C12", "x | "+sl, doc, goDoc, CheckOpts{Features: feats})
 	if !m1.Unspec {
 		c.Nontrivial("x", sl, fmt.Sprint(n))
 	}
@@ -218,15 +224,58 @@ func c12Nested(c *Ctx, idx int) {
 	}
 }
 
+// c12Long: arrays and strings longer than 2^16 with bounds around the 15/16/17-bit
+// limits, in every syntactic position of a slice (compact node encodings and
+// narrow integer fields show only when the value is long enough for the bound to matter).
+var c12LongBounds = []string{"", "0", "1", "32766", "32767", "32768", "32769", "65534", "65535", "65536", "65537", "69999", "70000", "70001", "-1", "-32768", "-32769", "-65535", "-65536", "-65537", "-70000", "131071", "131072"}
+
+var c12LongDoc *ref.Obj
+var c12LongGo any
+
+func c12LongN(c *Ctx) int { return len(c12LongBounds) * len(c12LongBounds) }
+
+func c12Long(c *Ctx, idx int) {
+	if c12LongDoc == nil {
+		const n = 70000
+		arr := &ref.Arr{E: make([]ref.V, n)}
+		var sb strings.Builder
+		for i := 0; i < n; i++ {
+			arr.E[i] = gen.IntV(int64(i))
+			sb.WriteString(c12Chars[i%len(c12Chars)])
+		}
+		c12LongDoc = ref.NewObj()
+		c12LongDoc.Set("x", arr)
+		c12LongDoc.Set("s", sb.String())
+		c12LongDoc.Set("t", strings.Repeat("abcdefghij", n/10))
+		c12LongGo = ref.ToGo(c12LongDoc, ref.JSONNumber)
+	}
+	a := c12LongBounds[idx%len(c12LongBounds)]
+	b := c12LongBounds[idx/len(c12LongBounds)]
+	sl := "[" + a + ":" + b + "]"
+	probe := " | [length(@), @[0], @[-1]]"
+	forms := []string{"x" + sl + probe, "x | " + sl + probe, "x | @" + sl + probe, "(x)" + sl + probe, "[x][0]" + sl + probe, "[x]" + sl + "[0]" + " | length(@)", "x[*] | " + sl + probe, "x" + "[" + a + ":" + b + ":1]" + probe, "x | [" + a + ":" + b + ":2]" + probe,
+		"s" + sl + " | [length(@), @[0:1], @[-1:]]", "s | " + sl + " | [length(@), @[0:1], @[-1:]]", "t" + sl + " | [length(@), @[0:1], @[-1:]]", "t | " + sl + " | length(@)"}
+	if a != "" {
+		forms = append(forms, "x["+a+"]", "x | ["+a+"]", "x[*] | ["+a+"]", "length(x[?@ == `"+strings.TrimPrefix(a, "-")+"`])")
+	}
+	for _, f := range forms {
+		m, _ := c.CheckModel("C12", f, c12LongDoc, c12LongGo, CheckOpts{Compiled: idx%5 == 0, Features: map[string]string{"stream": "long"}})
+		if !m.Unspec {
+			c.Nontrivial(f)
+		}
+	}
+}
+
 func init() {
 	Register(&Property{
 		ID:            "C12",
-		Rule:          "x[start:stop:step] on arrays [0..n-1] and on strings of n mixed-width code points: exhaustive lattice n in 0..7 x start,stop in {absent, -9..9, +-2^62, 2^63-1, -2^63, -2^63+1} x step in {absent, +-1,2,3,7,8, 2^63-1, -2^63, -2^63+1, 2^62, 0, -0}, every spelling of absent parts; seeded n <= 300 with random 64-bit parameters plus the projection rule (array slice projects, string slice does not); nested stream: slices inside the right-hand side of another slice's projection, beside it in multi-selects, after pipes/flatten, inside filters and expression references, over 2-D/3-D arrays and records of arrays and strings; compared with the specification's slice algorithm on big integers (model and a second direct oracle); non-trivial = model decides; distinct by (carrier, slice text, n)",
+		Rule:          "x[start:stop:step] on arrays [0..n-1] and on strings of n mixed-width code points and of n single-byte characters (also as a bare slice of the current node after a pipe): exhaustive lattice n in 0..7 x start,stop in {absent, -9..9, +-2^62, 2^63-1, -2^63, -2^63+1} x step in {absent, +-1,2,3,7,8, 2^63-1, -2^63, -2^63+1, 2^62, 0, -0}, every spelling of absent parts; seeded n <= 300 with random 64-bit parameters plus the projection rule (array slice projects, string slice does not); long stream: a 70000-element array and 70000-character strings (mixed-width and single-byte) with every pair of bounds from {absent, 0, 1, 2^15-1..2^15+1, 2^16-2..2^16+1, 69999..70001, their negatives, 2^17-1, 2^17} in every syntactic position of a slice or index; nested stream: slices inside the right-hand side of another slice's projection, beside it in multi-selects, after pipes/flatten, inside filters and expression references, over 2-D/3-D arrays and records of arrays and strings; compared with the specification's slice algorithm on big integers (model and a second direct oracle); non-trivial = model decides; distinct by (carrier, slice text, n)",
 		MinNontrivial: 5000,
 		Streams: []Stream{
 			{Name: "lattice", N: c12LatticeN, Run: c12Lattice, Exhaustive: true},
 			{Name: "random", N: func(c *Ctx) int { return tierN(c, 20000, 1500000) }, Run: c12Random},
 			{Name: "nested", N: func(c *Ctx) int { return tierN(c, 3000, 200000) }, Run: c12Nested},
+			{Name: "long", N: c12LongN, Run: c12Long, Exhaustive: true},
 			{Name: "direct", N: func(c *Ctx) int { return tierN(c, 40000, 3000000) }, Run: c12Direct},
 		},
 	})
